@@ -20,7 +20,7 @@ theorem linearizable (ctors : List Ctor) (jobs : List Op) (sched : List Nat) :
     (c.shared.log.map (·.1)).Nodup ∧
     (∀ e ∈ c.shared.log, jobs[e.1]? = some e.2.1) ∧
     (∀ i o, result c i = some o → ∃ j, jobs[i]? = some j ∧ (i, j, o) ∈ c.shared.log) := by
-  sorry
+  exact cmgr_linearizable (cmgr_inv_run ctors jobs sched)
 
 /-- the lock really excludes: a writer is never inside together with a reader; only lock holders run bodies -/
 theorem mutual_exclusion (ctors : List Ctor) (jobs : List Op) (sched : List Nat) :
@@ -28,21 +28,21 @@ theorem mutual_exclusion (ctors : List Ctor) (jobs : List Op) (sched : List Nat)
     (c.shared.writer.isSome → c.shared.readers = []) ∧
     (∀ i l, c.locals[i]? = some l → (l.pc = .locked ∨ ∃ o, l.pc = .ran o) →
         (if isWriter l.job then c.shared.writer = some i else i ∈ c.shared.readers)) := by
-  sorry
+  exact cmgr_mutual_exclusion (cmgr_inv_run ctors jobs sched)
 
 /-- ONE WINNER UNDER EVERY SCHEDULE: of all the CreateCircuit calls for one name that have returned, at most one
     returned a circuit -/
 theorem one_winner_concurrent (ctors : List Ctor) (jobs : List Op) (sched : List Nat) (name : String) :
     let c := run sys (init { ctors := ctors } jobs) sched
     (winners jobs c name).length ≤ 1 := by
-  sorry
+  exact cmgr_one_winner (cmgr_inv_run ctors jobs sched) name
 
 /-- ... and once every creator of the name has returned, exactly one of them won (if there was any) -/
 theorem exactly_one_winner_at_quiescence (ctors : List Ctor) (jobs : List Op) (sched : List Nat) (name : String) :
     let c := run sys (init { ctors := ctors } jobs) sched
     allDone c = true → (∃ (k : Nat) (cs : List Layer), jobs[k]? = some (Op.create name cs)) →
     (winners jobs c name).length = 1 := by
-  sorry
+  exact cmgr_exactly_one_winner (cmgr_inv_run ctors jobs sched) name
 
 /-- STABLE HANDLE UNDER EVERY SCHEDULE: whatever GetCircuit(name) returned to any thread, if it returned a circuit,
     it is the one the winning CreateCircuit(name) returned -/
@@ -51,13 +51,13 @@ theorem get_returns_the_winner (ctors : List Ctor) (jobs : List Op) (sched : Lis
     let c := run sys (init { ctors := ctors } jobs) sched
     jobs[i]? = some (.create name cs) → result c i = some (.created w) →
     jobs[j]? = some (.get name) → result c j = some (.got (some g)) → g = w := by
-  sorry
+  exact cmgr_get_winner (cmgr_inv_run ctors jobs sched) name i j cs w g
 
 /-- a loser changed nothing: the registry at any instant holds exactly the circuits returned by `created` bodies -/
 theorem registry_is_exactly_the_created (ctors : List Ctor) (jobs : List Op) (sched : List Nat) :
     let c := run sys (init { ctors := ctors } jobs) sched
     c.shared.st.circuits.map (·.2) = c.shared.log.filterMap fun e => match e.2.2 with | .created x => some x | _ => none := by
-  sorry
+  exact cmgr_registry (cmgr_inv_run ctors jobs sched)
 
 /-- the manager's lock never deadlocks: while some thread has not returned, some thread can step; and when all
     have returned the lock is free and every job took effect exactly once -/
@@ -65,7 +65,7 @@ theorem manager_never_deadlocks (ctors : List Ctor) (jobs : List Op) (sched : Li
     let c := run sys (init { ctors := ctors } jobs) sched
     (allDone c = false → ∃ i l, c.locals[i]? = some l ∧ (step i c.shared l).isSome) ∧
     (allDone c = true → c.shared.writer = none ∧ c.shared.readers = [] ∧ c.shared.log.length = jobs.length) := by
-  sorry
+  exact cmgr_never_deadlocks (cmgr_inv_run ctors jobs sched)
 
 /-- non-vacuity: two racing creators and a reader; the reader sneaks in first, thread 1 wins -/
 example :
